@@ -1408,3 +1408,1081 @@ func ruleR98(c *Ctx) {
 		c.Missing("activation flags", "no write of an atomic.Bool field of a node type was found")
 	}
 }
+
+// ---- R97, R99, R100, R101 ----
+
+func init() {
+	register(&Rule{ID: "R97", Title: "references resolve exactly: an element reference is looked up with an exact-id predicate, never by a partial string match", Min: 5, Run: ruleR97})
+	register(&Rule{ID: "R99", Title: "start-all is all: the functions that start an instance hand every declared start (and throw) event to the starter, in a loop over the whole collection — the completion monitor counts on all of them", Min: 3, Run: ruleR99})
+	register(&Rule{ID: "R100", Title: "one wake-up channel per waiter: the channel a clock hands out for a due time is created by that call", Min: 3, Run: ruleR100})
+	register(&Rule{ID: "R101", Title: "instances have identity: types stored in event.IDefinitionInstance are used through pointers (they are matched with ==)", Min: 2, Run: ruleR101})
+}
+
+func ruleR97(c *Ctx) {
+	p := c.P
+	what := "ids are opaque: `check` and `recheck` are different elements. A reference resolved by suffix, prefix, substring or case-insensitive match finds the first element in document order that happens to match — a fork is then wired to the same flow twice and to another not at all"
+	partial := map[string]bool{"HasSuffix": true, "HasPrefix": true, "Contains": true, "EqualFold": true, "Index": true, "ContainsAny": true, "LastIndex": true, "TrimPrefix": true, "TrimSuffix": true}
+	n := 0
+	for _, f := range p.Funcs {
+		if f.Body == nil || !(f.Pkg.PkgPath == pathBpmn || shortPkg(f.Pkg.PkgPath) == "model") {
+			continue
+		}
+		in := info(f)
+		inspectNoLit(f.Body, func(nd ast.Node) bool {
+			call, ok := nd.(*ast.CallExpr)
+			if !ok || len(call.Args) != 1 {
+				return true
+			}
+			fn := callee(in, call)
+			if fn == nil || fn.Name() != "FindBy" {
+				return true
+			}
+			n++
+			arg := call.Args[0]
+			usesExact := func(e ast.Node) bool {
+				return mentionsDeep(e, func(m ast.Node) bool {
+					cl, ok := m.(*ast.CallExpr)
+					if !ok {
+						return false
+					}
+					if g := callee(in, cl); g != nil && g.Name() == "ExactId" {
+						return true
+					}
+					// a local that holds ExactId(...)
+					if id, ok := unparen(cl.Fun).(*ast.Ident); ok {
+						if o := objOf(in, id); o != nil && isLocalVar(f.Root(), o) {
+							defs, _ := localDefs(in, f.Root().Body, o)
+							for _, d := range defs {
+								if dc, ok := unparen(d).(*ast.CallExpr); ok {
+									if g := callee(in, dc); g != nil && g.Name() == "ExactId" {
+										return true
+									}
+								}
+							}
+						}
+					}
+					return false
+				})
+			}
+			exact := usesExact(arg)
+			if id, ok := unparen(arg).(*ast.Ident); ok && !exact {
+				if o := objOf(in, id); o != nil {
+					defs, _ := localDefs(in, f.Root().Body, o)
+					for _, d := range defs {
+						if usesExact(d) {
+							exact = true
+						}
+					}
+					if _, isParam := o.(*types.Var); isParam && len(defs) == 0 && !isLocalVar(f.Root(), o) {
+						exact = true // the predicate is the caller's business (a parameter)
+					}
+				}
+			}
+			bad := ""
+			ast.Inspect(arg, func(m ast.Node) bool {
+				if cl, ok := m.(*ast.CallExpr); ok {
+					if g := callee(in, cl); g != nil && g.Pkg() != nil && g.Pkg().Path() == "strings" && partial[g.Name()] {
+						bad = "strings." + g.Name()
+					}
+				}
+				return true
+			})
+			okAll := exact && bad == ""
+			c.Check(okAll, f, call, "predicate of FindBy", what, ifElse(okAll, "identity is decided by schema.ExactId", ifElse(bad != "", "the predicate matches with "+bad, "the predicate does not go through schema.ExactId")))
+			return true
+		})
+	}
+	// and ExactId itself compares with ==
+	for _, f := range p.Funcs {
+		if f.Obj == nil || f.Obj.Name() != "ExactId" || !strings.HasSuffix(f.Pkg.PkgPath, "/schema") {
+			continue
+		}
+		in := info(f)
+		eq, other := false, ""
+		ast.Inspect(f.Body, func(m ast.Node) bool {
+			if be, ok := m.(*ast.BinaryExpr); ok && be.Op == token.EQL {
+				if b, ok := in.TypeOf(be.X).Underlying().(*types.Basic); ok && b.Info()&types.IsString != 0 {
+					eq = true
+				}
+			}
+			if cl, ok := m.(*ast.CallExpr); ok {
+				if g := callee(in, cl); g != nil && g.Pkg() != nil && g.Pkg().Path() == "strings" {
+					other = "strings." + g.Name()
+				}
+			}
+			return true
+		})
+		n++
+		c.Check(eq && other == "", f, f.Body, "ExactId compares with ==", what, ifElse(eq && other == "", "string equality", "uses "+other))
+	}
+	if n == 0 {
+		c.Missing("reference resolution", "no FindBy call was found")
+	}
+}
+
+func ruleR99(c *Ctx) {
+	p := c.P
+	what := "the completion monitor waits until it has seen a flow from every declared start event (len(StartEvents())); a start-all that triggers only some of them (the first, or up to a break) leaves the monitor waiting for ever: the instance — or the parent token of a sub-process — never continues"
+	n := 0
+	for _, f := range p.Funcs {
+		if f.Pkg.PkgPath != pathBpmn || f.Body == nil {
+			continue
+		}
+		in := info(f)
+		collOf := func(e ast.Node) string {
+			name := ""
+			ast.Inspect(e, func(m ast.Node) bool {
+				if cl, ok := m.(*ast.CallExpr); ok {
+					if g := callee(in, cl); g != nil && (g.Name() == "StartEvents" || g.Name() == "IntermediateThrowEvents") && len(cl.Args) == 0 {
+						name = g.Name()
+					}
+				}
+				if id, ok := m.(*ast.Ident); ok && name == "" {
+					if o := objOf(in, id); o != nil && isLocalVar(f.Root(), o) {
+						defs, _ := localDefs(in, f.Root().Body, o)
+						for _, d := range defs {
+							ast.Inspect(d, func(z ast.Node) bool {
+								if cl, ok := z.(*ast.CallExpr); ok {
+									if g := callee(in, cl); g != nil && (g.Name() == "StartEvents" || g.Name() == "IntermediateThrowEvents") && len(cl.Args) == 0 {
+										name = g.Name()
+									}
+								}
+								return true
+							})
+						}
+					}
+				}
+				return true
+			})
+			return name
+		}
+		inspectNoLit(f.Body, func(nd ast.Node) bool {
+			call, ok := nd.(*ast.CallExpr)
+			if !ok {
+				return true
+			}
+			fn := callee(in, call)
+			if fn == nil || !(fn.Name() == "StartWith" || fn.Name() == "startWith") || fn.Pkg() == nil || fn.Pkg().Path() != pathBpmn || len(call.Args) < 2 {
+				return true
+			}
+			coll := collOf(call.Args[1])
+			if coll == "" {
+				return true
+			}
+			n++
+			var loop elemLoop
+			found := false
+			for cur := p.Parent(call); cur != nil && cur != ast.Node(f.Body); cur = p.Parent(cur) {
+				if l, ok := elementLoop(in, cur); ok {
+					var over ast.Node
+					switch x := l.Stmt.(type) {
+					case *ast.RangeStmt:
+						over = x.X
+					case *ast.ForStmt:
+						over = x.Cond
+					}
+					if collOf(over) == coll {
+						loop, found = l, true
+						break
+					}
+				}
+			}
+			if !found {
+				c.Bad(f, call, "start of an element of "+coll+"()", what, "the call is not inside a loop over the whole "+coll+"() collection: "+exprString(call.Args[1]))
+				return true
+			}
+			skips := ""
+			inspectNoLit(loop.Body, func(m ast.Node) bool {
+				switch x := m.(type) {
+				case *ast.BranchStmt:
+					if x.Tok == token.BREAK || x.Tok == token.GOTO {
+						skips = x.Tok.String()
+					}
+				case *ast.ReturnStmt:
+					// leaving on an error is fine: the instance does not start at all
+					under := enclosingIfWhere(p, x, loop.Body, func(cond ast.Expr, inThen bool) bool {
+						be, ok := unparen(cond).(*ast.BinaryExpr)
+						return ok && inThen && be.Op == token.NEQ && isNilIdent(be.Y)
+					}) != nil
+					if !under {
+						skips = "return"
+					}
+				case *ast.ForStmt, *ast.RangeStmt, *ast.SwitchStmt, *ast.SelectStmt, *ast.TypeSwitchStmt:
+					return false
+				}
+				return true
+			})
+			c.Check(skips == "", f, call, "start of an element of "+coll+"()", what, ifElse(skips == "", "inside a loop over every element of "+coll+"() that is left only on an error", "the loop can be left early ("+skips+")"))
+			return true
+		})
+	}
+	if n == 0 {
+		c.Missing("start-all", "no StartWith/startWith call fed from StartEvents() was found")
+	}
+}
+
+func ruleR100(c *Ctx) {
+	p := c.P
+	what := "the channel carries one value for one waiter; two waiters that are handed the same channel (a pending entry re-used for an equal due time) share one wake-up: one of them fires, the other never does"
+	n := 0
+	for _, f := range p.Funcs {
+		if f.Obj == nil || f.Body == nil || f.Pkg.PkgPath != pathClock {
+			continue
+		}
+		sig := f.Obj.Type().(*types.Signature)
+		if sig.Results().Len() != 1 {
+			continue
+		}
+		ch, ok := sig.Results().At(0).Type().Underlying().(*types.Chan)
+		if !ok || !isNamed(ch.Elem(), "time", "Time") || sig.Recv() == nil {
+			continue
+		}
+		if f.Obj.Name() != "Until" && f.Obj.Name() != "After" {
+			continue
+		}
+		in := info(f)
+		inspectNoLit(f.Body, func(nd ast.Node) bool {
+			ret, ok := nd.(*ast.ReturnStmt)
+			if !ok || len(ret.Results) != 1 {
+				return true
+			}
+			n++
+			r := unparen(ret.Results[0])
+			fresh, wit := false, exprString(r)
+			switch x := r.(type) {
+			case *ast.CallExpr:
+				fresh, wit = true, "result of "+exprString(x.Fun)
+				if fv := fieldOf(in, x.Fun); fv != nil {
+					fresh = false
+				}
+			case *ast.Ident:
+				if o := objOf(in, x); o != nil && isLocalVar(f, o) {
+					defs, _ := localDefs(in, f.Body, o)
+					fresh = len(defs) > 0
+					for _, d := range defs {
+						dc, ok := unparen(d).(*ast.CallExpr)
+						if !ok || !(isBuiltin(in, dc, "make") || callee(in, dc) != nil) {
+							fresh = false
+						}
+					}
+					wit = x.Name + " is a local created in this call"
+				}
+			}
+			c.Check(fresh, f, ret, "channel returned by "+f.Obj.Name(), what, ifElse(fresh, wit, "returns "+exprString(r)+", which is not a channel created by this call"))
+			return true
+		})
+	}
+	if n == 0 {
+		c.Missing("clock wake-up channels", "no Until/After method returning a time channel was found in pkg/clock")
+	}
+}
+
+func ruleR101(c *Ctx) {
+	p := c.P
+	what := "a timer event names the definition instance it fired for and the catch event compares that with its own instance using == on the interface values: with pointer-typed instances that is allocation identity; with a value type it is structural equality, and every instance built from the same element — in another process instance, or twice in one model — is 'the same' and fires together"
+	var iface *types.Interface
+	if pk := p.ByPath[pathEvent]; pk != nil {
+		if tn, ok := pk.Types.Scope().Lookup("IDefinitionInstance").(*types.TypeName); ok {
+			iface, _ = tn.Type().Underlying().(*types.Interface)
+		}
+	}
+	if iface == nil {
+		c.Missing("IDefinitionInstance", "interface event.IDefinitionInstance was not found")
+		return
+	}
+	// is identity comparison used at all?
+	cmp := 0
+	for _, f := range p.Funcs {
+		if f.Body == nil || !isTargetPkg(p, f.Pkg.PkgPath) {
+			continue
+		}
+		in := info(f)
+		ast.Inspect(f.Body, func(m ast.Node) bool {
+			if be, ok := m.(*ast.BinaryExpr); ok && (be.Op == token.EQL || be.Op == token.NEQ) {
+				if isNamed(in.TypeOf(be.X), pathEvent, "IDefinitionInstance") && isNamed(in.TypeOf(be.Y), pathEvent, "IDefinitionInstance") {
+					cmp++
+				}
+			}
+			return true
+		})
+	}
+	if cmp == 0 {
+		c.Missing("identity comparison of definition instances", "no == between IDefinitionInstance values was found (the rule has nothing to protect)")
+		return
+	}
+	n := 0
+	for _, pk := range p.Target {
+		sc := pk.Types.Scope()
+		for _, name := range sc.Names() {
+			tn, ok := sc.Lookup(name).(*types.TypeName)
+			if !ok || tn.IsAlias() {
+				continue
+			}
+			nt, ok := tn.Type().(*types.Named)
+			if !ok {
+				continue
+			}
+			if _, isIface := nt.Underlying().(*types.Interface); isIface {
+				continue
+			}
+			if !types.Implements(types.NewPointer(nt), iface) {
+				continue
+			}
+			n++
+			valueImpl := types.Implements(nt, iface)
+			var at *FuncInfo
+			for _, f := range p.Funcs {
+				if f.Obj != nil && recvNamed(f.Obj) == nt {
+					at = f
+					break
+				}
+			}
+			var node ast.Node
+			if at != nil {
+				node = at.Decl
+			}
+			c.Check(!valueImpl, at, node, "definition instance type "+shortPkg(pk.PkgPath)+"."+name, what, ifElse(!valueImpl, "only *"+name+" implements IDefinitionInstance (pointer receivers): == is identity", name+" implements IDefinitionInstance with value receivers: == compares contents"))
+		}
+	}
+	if n == 0 {
+		c.Missing("definition instance types", "no type implementing IDefinitionInstance was found")
+	}
+}
+
+// mentionsDeep is exprMentions that also looks into function literals.
+func mentionsDeep(e ast.Node, pred func(ast.Node) bool) bool {
+	found := false
+	ast.Inspect(e, func(m ast.Node) bool {
+		if m != nil && pred(m) {
+			found = true
+		}
+		return !found
+	})
+	return found
+}
+
+// ---- R102 .. R106, R108 ----
+
+func init() {
+	register(&Rule{ID: "R102", Title: "marshal writes: a MarshalXML method decides whether to write an element by what kind of value it holds (type, nil) and by errors only — never by looking at the value's content", Min: 15, Run: ruleR102})
+	register(&Rule{ID: "R103", Title: "writer and reader agree on defaults: a field that the reader pre-sets to a non-zero default before decoding is not elided by the writer when it holds the zero value (omitempty)", Min: 4, Run: ruleR103})
+	register(&Rule{ID: "R104", Title: "parsed indices are checked: an index that was parsed from text (strconv) is compared with the length of what it indexes before it is used", Min: 0, Run: ruleR104})
+	register(&Rule{ID: "R105", Title: "stored items are replaced, not rewritten: an item that the data locator has stored (and hands out in snapshots) is never mutated in place", Min: 3, Run: ruleR105})
+	register(&Rule{ID: "R106", Title: "sibling selection: every function that selects the executable processes of a definitions document applies the same test to isExecutable", Min: 2, Run: ruleR106})
+	register(&Rule{ID: "R108", Title: "no shared backing store: a package-level slice or map is not stored into a field of an object (every object that appends to it would write the same memory)", Min: 0, Run: ruleR108})
+}
+
+func ruleR102(c *Ctx) {
+	p := c.P
+	what := "an element that is dropped at marshal time takes its id, its attributes and its extension elements with it: an expression with a blank body is still a condition (formal, with a language and an id), a re-parsed model without it behaves differently"
+	n := 0
+	for _, f := range p.Funcs {
+		if f.Obj == nil || f.Body == nil || f.Obj.Name() != "MarshalXML" || !strings.HasSuffix(f.Pkg.PkgPath, "/schema") {
+			continue
+		}
+		in := info(f)
+		isEncode := func(nd ast.Node) bool {
+			return mentionsDeep(nd, func(m ast.Node) bool {
+				cl, ok := m.(*ast.CallExpr)
+				if !ok {
+					return false
+				}
+				fn := callee(in, cl)
+				return fn != nil && strings.HasPrefix(fn.Name(), "Encode") && fn.Pkg() != nil && fn.Pkg().Path() == "encoding/xml"
+			})
+		}
+		n++
+		var bad []string
+		inspectNoLit(f.Body, func(nd ast.Node) bool {
+			ret, ok := nd.(*ast.ReturnStmt)
+			if !ok {
+				return true
+			}
+			if isEncode(ret) {
+				return true
+			}
+			// is an encode guaranteed before this return? (dominating statement that encodes)
+			g := p.Graph(f)
+			rpt, okp := g.PointOf(ret)
+			dominated := false
+			if okp {
+				for _, pt := range g.AllPoints() {
+					if pt.Node() != ast.Node(ret) && isEncode(pt.Node()) && g.Dominates(pt, rpt) {
+						dominated = true
+					}
+				}
+			}
+			if dominated {
+				return true
+			}
+			// a return that writes nothing: which conditions lead here?
+			for _, cnd := range controlConds(p, f, ret) {
+				ce, ok := cnd.(ast.Expr)
+				if !ok {
+					continue
+				}
+				onlyKind := true
+				var walk func(e ast.Expr)
+				walk = func(e ast.Expr) {
+					e = unparen(e)
+					switch x := e.(type) {
+					case *ast.BinaryExpr:
+						if x.Op == token.LOR || x.Op == token.LAND {
+							walk(x.X)
+							walk(x.Y)
+							return
+						}
+						if (x.Op == token.EQL || x.Op == token.NEQ) && (isNilIdent(x.X) || isNilIdent(x.Y)) {
+							return
+						}
+						onlyKind = false
+					case *ast.UnaryExpr:
+						if x.Op == token.NOT {
+							walk(x.X)
+							return
+						}
+						onlyKind = false
+					case *ast.Ident:
+						// ok-flag of a type assertion or the like
+					default:
+						onlyKind = false
+					}
+				}
+				walk(ce)
+				if !onlyKind {
+					bad = append(bad, "return at "+p.Pos(ret.Pos())+" writes nothing under the condition "+exprString(ce))
+				}
+			}
+			return true
+		})
+		sort.Strings(bad)
+		c.Check(len(bad) == 0, f, f.Decl, "paths of MarshalXML that write nothing", what, ifElse(len(bad) == 0, "every return either follows an Encode call or is reached through nil / error / kind tests only", strings.Join(bad, "; ")))
+	}
+	if n == 0 {
+		c.Missing("MarshalXML methods", "no MarshalXML method was found in the schema package")
+	}
+}
+
+func ruleR103(c *Ctx) {
+	p := c.P
+	what := "`omitempty` makes the writer drop the Go zero value; when the reader fills the same field with a non-zero default for a missing attribute, the zero value (false, 0, \"\") can no longer be expressed: it is written as 'absent' and read back as the default"
+	n := 0
+	for _, f := range p.Funcs {
+		if f.Obj == nil || f.Body == nil || f.Obj.Name() != "UnmarshalXML" || !strings.HasSuffix(f.Pkg.PkgPath, "/schema") {
+			continue
+		}
+		if strings.Contains(p.Pos(f.Body.Pos()), "_generated") {
+			continue
+		}
+		in := info(f)
+		recv := recvNamed(f.Obj)
+		if recv == nil {
+			continue
+		}
+		rst, ok := recv.Underlying().(*types.Struct)
+		if !ok {
+			continue
+		}
+		n++
+		var bad []string
+		ast.Inspect(f.Body, func(m ast.Node) bool {
+			lit, ok := m.(*ast.CompositeLit)
+			if !ok {
+				return true
+			}
+			lt := in.TypeOf(lit)
+			if lt == nil || !types.Identical(lt.Underlying(), recv.Underlying()) {
+				return true
+			}
+			for _, el := range lit.Elts {
+				kv, ok := el.(*ast.KeyValueExpr)
+				if !ok {
+					continue
+				}
+				key, ok := kv.Key.(*ast.Ident)
+				if !ok {
+					continue
+				}
+				if tv, ok := in.Types[kv.Value]; ok && tv.Value != nil {
+					zero := tv.Value.ExactString()
+					if zero == "false" || zero == "0" || zero == `""` {
+						continue
+					}
+				}
+				for i := 0; i < rst.NumFields(); i++ {
+					if rst.Field(i).Name() == key.Name && strings.Contains(rst.Tag(i), "omitempty") {
+						bad = append(bad, key.Name+" is pre-set to "+exprString(kv.Value)+" by the reader and tagged `"+rst.Tag(i)+"`")
+					}
+				}
+			}
+			return true
+		})
+		// pre-sets made by assignment before the decode call
+		c.Check(len(bad) == 0, f, f.Decl, "reader defaults of "+recv.Obj().Name(), what, ifElse(len(bad) == 0, "no field with a reader-side non-zero default is omitempty", strings.Join(bad, "; ")))
+	}
+	if n == 0 {
+		c.Missing("UnmarshalXML methods", "no hand-written UnmarshalXML method was found")
+	}
+}
+
+func ruleR104(c *Ctx) {
+	p := c.P
+	what := "a path like `$items.7` into a stored list comes from the model; the index parsed out of it can be anything. Used without a comparison against the length it panics in the token's goroutine (index out of range) where the reference should simply resolve to nothing"
+	for _, f := range p.Funcs {
+		if f.Body == nil || !isTargetPkg(p, f.Pkg.PkgPath) {
+			continue
+		}
+		in := info(f)
+		parsed := map[types.Object]bool{}
+		inspectNoLit(f.Body, func(m ast.Node) bool {
+			as, ok := m.(*ast.AssignStmt)
+			if !ok || len(as.Rhs) != 1 {
+				return true
+			}
+			cl, ok := unparen(as.Rhs[0]).(*ast.CallExpr)
+			if !ok {
+				return true
+			}
+			fn := callee(in, cl)
+			if fn == nil || fn.Pkg() == nil || fn.Pkg().Path() != "strconv" || !(fn.Name() == "Atoi" || strings.HasPrefix(fn.Name(), "Parse")) {
+				return true
+			}
+			if id, ok := unparen(as.Lhs[0]).(*ast.Ident); ok && id.Name != "_" {
+				parsed[objOf(in, id)] = true
+			}
+			return true
+		})
+		if len(parsed) == 0 {
+			continue
+		}
+		inspectNoLit(f.Body, func(m ast.Node) bool {
+			ix, ok := m.(*ast.IndexExpr)
+			if !ok {
+				return true
+			}
+			switch in.TypeOf(ix.X).Underlying().(type) {
+			case *types.Slice, *types.Array, *types.Basic:
+			default:
+				return true
+			}
+			var iv types.Object
+			ast.Inspect(ix.Index, func(z ast.Node) bool {
+				if id, ok := z.(*ast.Ident); ok && parsed[objOf(in, id)] {
+					iv = objOf(in, id)
+				}
+				return true
+			})
+			if iv == nil {
+				return true
+			}
+			guarded := enclosingIfWhere(p, ix, f.Body, func(cond ast.Expr, inThen bool) bool {
+				hasIdx, hasLen := false, false
+				ast.Inspect(cond, func(z ast.Node) bool {
+					if id, ok := z.(*ast.Ident); ok && objOf(in, id) == iv {
+						hasIdx = true
+					}
+					if cl, ok := z.(*ast.CallExpr); ok && isBuiltin(in, cl, "len") {
+						hasLen = true
+					}
+					return true
+				})
+				return hasIdx && hasLen
+			}) != nil
+			c.Check(guarded, f, ix, "index "+exprString(ix.Index)+" parsed from text", what, ifElse(guarded, "compared with a length first", exprString(ix)+" is evaluated without any comparison of "+iv.Name()+" with a length"))
+			return true
+		})
+	}
+}
+
+func ruleR105(c *Ctx) {
+	p := c.P
+	what := "CloneVariables / GetVariable hand the stored item pointers to readers that use them after the locator's lock is released (a condition being evaluated, an observer's snapshot); that is sound only because a stored item is never written again — SetVariable replaces the map entry with a new item. Rewriting the stored item in place is a data race with every such reader and changes snapshots after they were taken"
+	// mutators: pointer-receiver methods of schema item types that assign receiver fields
+	mut := map[*types.Func]bool{}
+	for _, f := range p.Funcs {
+		if f.Obj == nil || f.Body == nil || !strings.HasSuffix(f.Pkg.PkgPath, "/schema") || f.Decl == nil || f.Decl.Recv == nil {
+			continue
+		}
+		sig := f.Obj.Type().(*types.Signature)
+		if _, ptr := sig.Recv().Type().(*types.Pointer); !ptr || len(f.Decl.Recv.List[0].Names) == 0 {
+			continue
+		}
+		if strings.Contains(p.Pos(f.Body.Pos()), "_generated") {
+			continue
+		}
+		in := info(f)
+		rv := in.Defs[f.Decl.Recv.List[0].Names[0]]
+		writes := false
+		inspectNoLit(f.Body, func(m ast.Node) bool {
+			if as, ok := m.(*ast.AssignStmt); ok {
+				for _, l := range as.Lhs {
+					if sel, ok := unparen(l).(*ast.SelectorExpr); ok && fieldOf(in, sel) != nil {
+						if id := rootIdent(sel.X); id != nil && objOf(in, id) == rv {
+							writes = true
+						}
+					}
+				}
+			}
+			return true
+		})
+		if writes {
+			mut[f.Obj] = true
+		}
+	}
+	n := 0
+	for _, f := range p.Funcs {
+		if f.Body == nil || f.Pkg.PkgPath != pathData {
+			continue
+		}
+		in := info(f)
+		// locals that hold an element of a map field of the receiver
+		stored := map[types.Object]string{}
+		fromMapField := func(e ast.Expr) string {
+			e = unparen(e)
+			if ta, ok := e.(*ast.TypeAssertExpr); ok {
+				e = unparen(ta.X)
+			}
+			if ix, ok := e.(*ast.IndexExpr); ok {
+				if fv := fieldOf(in, ix.X); fv != nil {
+					if _, isMap := fv.Type().Underlying().(*types.Map); isMap {
+						return fv.Name()
+					}
+				}
+			}
+			return ""
+		}
+		inspectNoLit(f.Body, func(m ast.Node) bool {
+			switch x := m.(type) {
+			case *ast.AssignStmt:
+				if len(x.Rhs) == 1 {
+					if src := fromMapField(x.Rhs[0]); src != "" {
+						if id, ok := unparen(x.Lhs[0]).(*ast.Ident); ok && id.Name != "_" {
+							stored[objOf(in, id)] = src
+						}
+					}
+				}
+			case *ast.RangeStmt:
+				if fv := fieldOf(in, x.X); fv != nil {
+					if _, isMap := fv.Type().Underlying().(*types.Map); isMap {
+						if id, ok := x.Value.(*ast.Ident); ok && id.Name != "_" {
+							stored[objOf(in, id)] = fv.Name()
+						}
+					}
+				}
+			}
+			return true
+		})
+		inspectNoLit(f.Body, func(m ast.Node) bool {
+			switch x := m.(type) {
+			case *ast.IndexExpr:
+				if src := fromMapField(x); src != "" && x == unparen(x) {
+					_ = src
+				}
+			case *ast.CallExpr:
+				fn := callee(in, x)
+				if fn == nil {
+					return true
+				}
+				sel, ok := unparen(x.Fun).(*ast.SelectorExpr)
+				if !ok {
+					return true
+				}
+				src := ""
+				if id, ok := unparen(sel.X).(*ast.Ident); ok {
+					src = stored[objOf(in, id)]
+				}
+				if src == "" {
+					src = fromMapField(sel.X)
+				}
+				if src == "" {
+					return true
+				}
+				n++
+				isMut := mut[fn]
+				if !isMut {
+					// through the interface: any implementation's method of that name that mutates
+					for mf := range mut {
+						if mf.Name() == fn.Name() {
+							if _, isIface := recvUnderlyingInterface(fn); isIface {
+								isMut = true
+							}
+						}
+					}
+				}
+				c.Check(!isMut, f, x, "method called on an item stored in "+src, what, ifElse(!isMut, fn.Name()+" does not write the item", fn.Name()+" rewrites the stored item in place"))
+			}
+			return true
+		})
+	}
+	if n == 0 {
+		c.Missing("uses of stored items", "no method call on an element of a locator map was found in pkg/data")
+	}
+}
+
+// boolTable evaluates a condition over the two results of IsExecutable().
+func evalBool(in *types.Info, e ast.Expr, env map[types.Object]bool) (val, ok bool) {
+	e = unparen(e)
+	switch x := e.(type) {
+	case *ast.Ident:
+		if x.Name == "true" {
+			return true, true
+		}
+		if x.Name == "false" {
+			return false, true
+		}
+		v, has := env[objOf(in, x)]
+		return v, has
+	case *ast.UnaryExpr:
+		if x.Op == token.NOT {
+			v, ok := evalBool(in, x.X, env)
+			return !v, ok
+		}
+	case *ast.BinaryExpr:
+		a, ok1 := evalBool(in, x.X, env)
+		b, ok2 := evalBool(in, x.Y, env)
+		if !ok1 || !ok2 {
+			return false, false
+		}
+		switch x.Op {
+		case token.LAND:
+			return a && b, true
+		case token.LOR:
+			return a || b, true
+		case token.EQL:
+			return a == b, true
+		case token.NEQ:
+			return a != b, true
+		}
+	}
+	return false, false
+}
+
+func ruleR106(c *Ctx) {
+	p := c.P
+	what := "Engine.NewProcess and NewProcessSet both pick 'the executable processes' of a document; the same document must mean the same thing to both. If one of them treats a process without the isExecutable attribute (every process but the first of DefinitionBuilder output) differently, definitions that run as a set fail to load as a single process ('multiple executable processes') or vice versa"
+	type site struct {
+		f     *FuncInfo
+		n     ast.Node
+		table string
+	}
+	var sites []site
+	for _, f := range p.Funcs {
+		if f.Pkg.PkgPath != pathBpmn || f.Body == nil {
+			continue
+		}
+		in := info(f)
+		inspectNoLit(f.Body, func(m ast.Node) bool {
+			as, ok := m.(*ast.AssignStmt)
+			if !ok || len(as.Rhs) != 1 || len(as.Lhs) != 2 {
+				return true
+			}
+			cl, ok := unparen(as.Rhs[0]).(*ast.CallExpr)
+			if !ok {
+				return true
+			}
+			fn := callee(in, cl)
+			if fn == nil || fn.Name() != "IsExecutable" {
+				return true
+			}
+			able, ok1 := as.Lhs[0].(*ast.Ident)
+			pres, ok2 := as.Lhs[1].(*ast.Ident)
+			if !ok1 || !ok2 {
+				return true
+			}
+			// the if statement that uses them: the one whose init is this assignment, or the next statement
+			var ifs *ast.IfStmt
+			if pi, ok := p.Parent(as).(*ast.IfStmt); ok && pi.Init == ast.Stmt(as) {
+				ifs = pi
+			} else if blk, ok := p.Parent(as).(*ast.BlockStmt); ok {
+				for i, st := range blk.List {
+					if st == ast.Stmt(as) && i+1 < len(blk.List) {
+						ifs, _ = blk.List[i+1].(*ast.IfStmt)
+					}
+				}
+			}
+			if ifs == nil {
+				sites = append(sites, site{f, as, "?"})
+				return true
+			}
+			tbl := ""
+			for _, pv := range []bool{false, true} {
+				for _, av := range []bool{false, true} {
+					env := map[types.Object]bool{}
+					if able.Name != "_" {
+						env[objOf(in, able)] = av
+					}
+					if pres.Name != "_" {
+						env[objOf(in, pres)] = pv
+					}
+					v, ok := evalBool(in, ifs.Cond, env)
+					if !ok {
+						tbl += "?"
+						continue
+					}
+					tbl += ifElse(v, "1", "0")
+				}
+			}
+			// which branch means "executable" differs between the sites (skip / collect as waiting): the tables
+			// are compared up to negation, normalised to start with 0
+			if strings.HasPrefix(tbl, "1") {
+				tbl = strings.Map(func(r rune) rune {
+					switch r {
+					case '0':
+						return '1'
+					case '1':
+						return '0'
+					}
+					return r
+				}, tbl)
+			}
+			sites = append(sites, site{f, ifs, tbl})
+			return true
+		})
+	}
+	if len(sites) < 2 {
+		c.Missing("executable-process selection", "fewer than two functions that test IsExecutable() were found")
+		return
+	}
+	sort.Slice(sites, func(i, j int) bool { return sites[i].f.QName() < sites[j].f.QName() })
+	// majority table (ties: the table of the first site)
+	count := map[string]int{}
+	for _, s := range sites {
+		count[s.table]++
+	}
+	ref := sites[0].table
+	for t, k := range count {
+		if k > count[ref] {
+			ref = t
+		}
+	}
+	for _, s := range sites {
+		all := []string{}
+		for _, o := range sites {
+			all = append(all, o.f.Root().QName()+"="+o.table)
+		}
+		ok := s.table == ref && !strings.Contains(s.table, "?")
+		if count[ref]*2 == len(sites) && len(count) > 1 {
+			ok = false // a tie: nobody is right by majority
+		}
+		c.Check(ok, s.f, s.n, "selection of executable processes", what, "partition of (present,able) = (0,0)(0,1)(1,0)(1,1) drawn by the test, up to negation: "+strings.Join(all, "; "))
+	}
+}
+
+func ruleR108(c *Ctx) {
+	p := c.P
+	what := "a package-level slice with spare capacity (or a map) that a constructor stores into each new object is ONE backing array: the first append of every object writes the same slot, so two catch events — or two process instances — record their partial matches in each other's state"
+	for _, f := range p.Funcs {
+		if f.Body == nil || !isTargetPkg(p, f.Pkg.PkgPath) {
+			continue
+		}
+		in := info(f)
+		pkgContainer := func(e ast.Expr) *types.Var {
+			id, ok := unparen(e).(*ast.Ident)
+			if !ok {
+				return nil
+			}
+			v, ok := in.Uses[id].(*types.Var)
+			if !ok || v.IsField() || v.Pkg() == nil || v.Parent() != v.Pkg().Scope() {
+				return nil
+			}
+			switch v.Type().Underlying().(type) {
+			case *types.Slice, *types.Map:
+				return v
+			}
+			return nil
+		}
+		inspectNoLit(f.Body, func(m ast.Node) bool {
+			switch x := m.(type) {
+			case *ast.KeyValueExpr:
+				if v := pkgContainer(x.Value); v != nil {
+					if _, inLit := p.Parent(x).(*ast.CompositeLit); inLit {
+						c.Bad(f, x, "package-level "+v.Name()+" stored into a field", what, exprString(x.Key)+": "+v.Name()+" in a composite literal")
+					}
+				}
+			case *ast.AssignStmt:
+				for i, l := range x.Lhs {
+					if i < len(x.Rhs) && fieldOf(in, l) != nil {
+						if v := pkgContainer(x.Rhs[i]); v != nil {
+							c.Bad(f, x, "package-level "+v.Name()+" stored into a field", what, exprString(l)+" = "+v.Name())
+						}
+					}
+				}
+			}
+			return true
+		})
+	}
+	c.Ok(nil, nil, "scan for package-level containers stored into fields", what, "every composite literal and field assignment of the target packages was inspected", false)
+}
+
+// ---- R107 ----
+
+func init() {
+	register(&Rule{ID: "R107", Title: "snapshot after the last write: a table that copies coordinates out of the layout nodes is filled after every write of those coordinates (what is computed from the table would otherwise describe positions the shapes no longer have)", Min: 1, Run: ruleR107})
+}
+
+// fieldWriters: declared functions of pkg (by object) -> set of struct fields they assign (directly; callers add transitivity).
+func fieldWritersOf(p *Prog, pkgPath string) map[*types.Func]map[*types.Var]bool {
+	out := map[*types.Func]map[*types.Var]bool{}
+	for _, f := range p.Funcs {
+		if f.Obj == nil || f.Body == nil || f.Pkg.PkgPath != pkgPath {
+			continue
+		}
+		in := info(f)
+		set := map[*types.Var]bool{}
+		ast.Inspect(f.Body, func(m ast.Node) bool {
+			switch x := m.(type) {
+			case *ast.AssignStmt:
+				for _, l := range x.Lhs {
+					if fv := fieldOf(in, l); fv != nil {
+						set[fv] = true
+					}
+				}
+			case *ast.IncDecStmt:
+				if fv := fieldOf(in, x.X); fv != nil {
+					set[fv] = true
+				}
+			}
+			return true
+		})
+		out[f.Obj] = set
+	}
+	// one round of transitivity
+	for _, f := range p.Funcs {
+		if f.Obj == nil || f.Body == nil || f.Pkg.PkgPath != pkgPath {
+			continue
+		}
+		in := info(f)
+		ast.Inspect(f.Body, func(m ast.Node) bool {
+			if cl, ok := m.(*ast.CallExpr); ok {
+				if g := callee(in, cl); g != nil && out[g] != nil && g != f.Obj {
+					for fv := range out[g] {
+						out[f.Obj][fv] = true
+					}
+				}
+			}
+			return true
+		})
+	}
+	return out
+}
+
+func ruleR107(c *Ctx) {
+	p := c.P
+	what := "AutoLayout draws every edge from the bounds table, every shape from the nodes: both have to describe the same rectangles. A pass that moves nodes after the table was filled leaves the edges docked to where the shapes used to be"
+	n := 0
+	for _, f := range p.Funcs {
+		if f.Obj == nil || f.Body == nil || !strings.HasSuffix(f.Pkg.PkgPath, "/schema") || strings.Contains(p.Pos(f.Body.Pos()), "_generated") {
+			continue
+		}
+		in := info(f)
+		writers := fieldWritersOf(p, f.Pkg.PkgPath)
+		g := p.Graph(f)
+		inspectNoLit(f.Body, func(m ast.Node) bool {
+			as, ok := m.(*ast.AssignStmt)
+			if !ok || len(as.Lhs) != 1 || len(as.Rhs) != 1 {
+				return true
+			}
+			ix, ok := unparen(as.Lhs[0]).(*ast.IndexExpr)
+			if !ok {
+				return true
+			}
+			sid, ok := unparen(ix.X).(*ast.Ident)
+			if !ok || !isLocalVar(f, objOf(in, sid)) {
+				return true
+			}
+			if _, isMap := in.TypeOf(sid).Underlying().(*types.Map); !isMap {
+				return true
+			}
+			// fields copied
+			copied := map[*types.Var]bool{}
+			ast.Inspect(as.Rhs[0], func(z ast.Node) bool {
+				if sel, ok := z.(*ast.SelectorExpr); ok {
+					if fv := fieldOf(in, sel); fv != nil {
+						if _, isPtr := in.TypeOf(sel.X).Underlying().(*types.Pointer); isPtr {
+							copied[fv] = true
+						}
+					}
+				}
+				return true
+			})
+			if len(copied) < 2 {
+				return true
+			}
+			loop := innermostLoop(p, as)
+			if loop == nil {
+				return true
+			}
+			n++
+			lpt, okl := g.PointOf(loop)
+			var late []string
+			inspectNoLit(f.Body, func(z ast.Node) bool {
+				if z == nil || (z.Pos() >= loop.Pos() && z.End() <= loop.End()) {
+					return true
+				}
+				st, isStmt := z.(ast.Stmt)
+				if !isStmt {
+					return true
+				}
+				writes := ""
+				switch x := st.(type) {
+				case *ast.AssignStmt:
+					for _, l := range x.Lhs {
+						if fv := fieldOf(in, l); fv != nil && copied[fv] {
+							writes = "assigns " + exprString(l)
+						}
+					}
+					for _, r := range x.Rhs {
+						if cl, ok := unparen(r).(*ast.CallExpr); ok {
+							if gfn := callee(in, cl); gfn != nil {
+								for fv := range writers[gfn] {
+									if copied[fv] {
+										writes = "calls " + gfn.Name() + ", which writes " + fv.Name()
+									}
+								}
+							}
+						}
+					}
+				case *ast.IncDecStmt:
+					if fv := fieldOf(in, x.X); fv != nil && copied[fv] {
+						writes = "changes " + exprString(x.X)
+					}
+				case *ast.ExprStmt:
+					if cl, ok := unparen(x.X).(*ast.CallExpr); ok {
+						if gfn := callee(in, cl); gfn != nil {
+							for fv := range writers[gfn] {
+								if copied[fv] {
+									writes = "calls " + gfn.Name() + ", which writes " + fv.Name()
+								}
+							}
+						}
+					}
+				}
+				if writes == "" || !okl {
+					return true
+				}
+				if spt, ok := g.PointOf(st); ok {
+					after, _ := g.Reaches(lpt, func(q ast.Node) bool { return q == ast.Node(st) }, nil)
+					if after && spt != lpt {
+						// and the table is read afterwards
+						readLater, _ := g.Reaches(spt, func(q ast.Node) bool {
+							return q != ast.Node(st) && exprMentions(q, func(w ast.Node) bool {
+								id, ok := w.(*ast.Ident)
+								return ok && objOf(in, id) == objOf(in, sid)
+							})
+						}, nil)
+						if readLater {
+							late = append(late, "the statement at "+p.Pos(st.Pos())+" "+writes+" after "+sid.Name+" was filled, and "+sid.Name+" is read later")
+						}
+					}
+				}
+				return true
+			})
+			sort.Strings(late)
+			c.Check(len(late) == 0, f, as, "table "+sid.Name+" copied from node fields", what, ifElse(len(late) == 0, "no write of the copied fields is reachable between the fill loop and the later reads of "+sid.Name, strings.Join(late, "; ")))
+			return true
+		})
+	}
+	if n == 0 {
+		c.Missing("bounds table", "no local map filled from at least two fields of layout nodes inside a loop was found in the schema builder")
+	}
+}
